@@ -19,7 +19,7 @@ import (
 
 // checkCutPoints walks input and output in parallel from one root element and
 // checks every `$ref` that remains in the output.
-func checkCutPoints(f *vstat.Failure, gin, gout *model.Graph, root string, el model.Elem, abs bool) (remaining int) {
+func checkCutPoints(f *vstat.Failure, gin, gout *model.Graph, root string, el model.Elem, abs bool, spelling bool) (remaining int) {
 	rootURL, _ := url.Parse(root)
 	rootDir := root[:strings.LastIndex(root, "/")+1]
 	var walk func(pin, pout model.Pos, k model.Kind, depth int)
@@ -75,6 +75,9 @@ func checkCutPoints(f *vstat.Failure, gin, gout *model.Graph, root string, el mo
 			return
 		}
 		// (c) spelling
+		if !spelling {
+			return
+		}
 		r, err := spec.NewRef(ref)
 		if err != nil {
 			f.Add("UNRESOLVABLE", pout.Ptr, "remaining $ref %q does not parse: %v", ref, err)
@@ -123,7 +126,7 @@ func oracleC03(c c03Case) (*vstat.Failure, bool) {
 		if !gin.WellFounded(el.P) {
 			continue
 		}
-		remaining += checkCutPoints(f, gin, gout, c.Graph.Root, el, c.Abs)
+		remaining += checkCutPoints(f, gin, gout, c.Graph.Root, el, c.Abs, true)
 		if len(f.Atoms) > 0 {
 			return f, acyclic
 		}
